@@ -195,10 +195,17 @@ func (c *Conn) clientHandshake(ctx context.Context) (err error) {
 	// 首次发送 ClientHello（cookie=""），收到 HelloVerifyRequest 后保存 cookie 并重发。
 	var serverHello *serverHelloMsg
 
+	// newHello 表示本轮发送的是一条新的 ClientHello（首次发送，或刚设置了 cookie）。
+	// 超时/对端重传触发的重发必须与原报文逐字节相同（保持 message_seq 不变），
+	// 否则双方 transcript 中的 ClientHello 不一致，Finished 校验失败。
+	newHello := true
 	for {
 		c.hsState.Store(int32(stateSending))
-		hello.setMessageSeq(c.messageSeq)
-		c.messageSeq++
+		if newHello {
+			hello.setMessageSeq(c.messageSeq)
+			c.messageSeq++
+			newHello = false
+		}
 
 		// 写入 ClientHello，不加入 transcript
 		if _, err = c.writeHandshakeRecord(hello, nil); err != nil {
@@ -243,6 +250,7 @@ func (c *Conn) clientHandshake(ctx context.Context) (err error) {
 				hello.raw = nil // 强制重新 marshaling
 				c.handBuf.Reset()
 				c.hsState.Store(int32(stateSending))
+				newHello = true
 				resend = true
 				break
 
